@@ -225,6 +225,98 @@ Theorem C13_concurrent_word_ok :
 Proof. exact concurrent_word_ok. Qed.
 Print Assumptions C13_concurrent_word_ok.
 
+(* ---- the channel request protocol under concurrency ---------------------------------------------- *)
+(* tools/atomics2v also translates the compound methods (Tag, ChannelCanStop, ChannelCanStart,
+   SetChannel(true/false)) into decision trees over their atomic calls, in source order, getters
+   inlined (type prog: PRet / PTest mask / PCall set arg; Gen/StateAtomics.v).  A thread executes one
+   atomic call per scheduling slot; the Set/Unset calls inside run as their translated shape. *)
+
+(* run alone, each translated compound method IS the method of the sequential model (answer and
+   word) -- for every word *)
+Theorem C13_translated_compound_meaning :
+  forall w,
+    run_prog gen_set gen_unset gen_tag w = (Some (fst (st_tag w)), snd (st_tag w)) /\
+    run_prog gen_set gen_unset gen_channelcanstop w = (Some (fst (st_channel_can_stop w)), snd (st_channel_can_stop w)) /\
+    run_prog gen_set gen_unset gen_channelcanstart w = (Some (st_channel_can_start w), w) /\
+    forall e, run_prog gen_set gen_unset (gen_setchannel e) w = (Some (fst (st_set_channel e w)), snd (st_set_channel e w)).
+Proof.
+  exact (fun w => conj (gen_tag_meaning w) (conj (gen_channelcanstop_meaning w)
+                 (conj (gen_channelcanstart_meaning w) (fun e => gen_setchannel_meaning e w)))).
+Qed.
+Print Assumptions C13_translated_compound_meaning.
+
+(* One SetChannel(e) call (thread 0) against one ChannelCanStop poll (thread 1) while a channel is
+   running, EVERY word, EVERY schedule (any list of thread ids).  In every configuration reached:
+   1. SetChannel answers whether the request differs from the standing one, exactly as alone;
+   2. the poller answers "stop" only because of an OFF request -- this one, or an earlier one whose
+      notice was still pending in w0: a notice is never acted on with the value of another request
+      (SetChannel publishes the value BEFORE the notice; the order of its two writes is what this
+      clause is about, see the refuted variant below);
+   3. once both returned and the request differed: the standing request is e; if the notice is gone
+      the poller consumed it and answered for e; if it is pending the next poll consumes exactly it
+      and answers for e.  So the request is never lost and its notice is consumed once. *)
+Theorem C13_channel_protocol_concurrent :
+  forall (e : bool) (w0 : Z) (sched : list nat),
+    chan_active w0 = true ->
+    let c := prun gen_set gen_unset (pinit w0 (gen_setchannel e) gen_channelcanstop) sched in
+    (forall rs, pret (pc_a c) = Some rs -> rs = request_differs e w0) /\
+    (pret (pc_b c) = Some true -> e = false \/ (st_channel_updated w0 = true /\ st_channel_value w0 = false)) /\
+    (pret (pc_a c) = Some true -> forall rp, pret (pc_b c) = Some rp ->
+       st_channel_value (pc_word c) = e /\
+       (st_channel_updated (pc_word c) = false -> rp = negb e) /\
+       (st_channel_updated (pc_word c) = true ->
+          exists w2, st_channel_can_stop (pc_word c) = (negb e, w2) /\
+                     st_channel_updated w2 = false /\ st_channel_value w2 = e)).
+Proof. exact channel_protocol_concurrent. Qed.
+Print Assumptions C13_channel_protocol_concurrent.
+
+(* the same as ONE boolean invariant of every reachable configuration (the form the check evaluates
+   when it searches a failing schedule) *)
+Theorem C13_channel_protocol_invariant :
+  forall (e : bool) (w0 : Z) (sched : list nat),
+    protocol_ok gen_set gen_unset gen_channelcanstop e w0
+                (prun gen_set gen_unset (pinit w0 (gen_setchannel e) gen_channelcanstop) sched) = true.
+Proof. exact gen_protocol_ok. Qed.
+Print Assumptions C13_channel_protocol_invariant.
+
+(* SetChannel(e) against ChannelCanStart, every word, every schedule: the poll never writes and
+   answers for the word before the request or for the word after it *)
+Theorem C13_channel_can_start_concurrent :
+  forall (e : bool) (w0 : Z) (sched : list nat),
+    let c := prun gen_set gen_unset (pinit w0 (gen_setchannel e) gen_channelcanstart) sched in
+    (forall r, pret (pc_b c) = Some r ->
+       r = st_channel_can_start w0 \/
+       r = negb (st_closed w0) && (st_channel w0 || (if request_differs e w0 then e else st_channel_value w0))) /\
+    (forall rs r, pret (pc_a c) = Some rs -> pret (pc_b c) = Some r ->
+       rs = request_differs e w0 /\ st_channel_value (pc_word c) = (if rs then e else st_channel_value w0) /\
+       st_channel_updated (pc_word c) = (rs || st_channel_updated w0)).
+Proof. exact channel_can_start_concurrent. Qed.
+Print Assumptions C13_channel_can_start_concurrent.
+
+(* REFUTED for a SetChannel that raises the notice BEFORE it changes the standing request (same
+   final word on one thread): OFF request on Ready|Channel|ChannelValue -- the poller consumes the
+   notice, reads the old request, answers "no stop"; the notice is gone, the request is lost ... *)
+Theorem C13_swapped_publish_order_loses_request_refuted :
+  exists w0 sched,
+    let c := prun cas_set cas_unset (pinit w0 (swapped_setchannel false) ref_channelcanstop) sched in
+    chan_active w0 = true /\ st_channel_updated w0 = false /\
+    pret (pc_a c) = Some true /\ pret (pc_b c) = Some false /\
+    st_channel_updated (pc_word c) = false /\ st_channel_value (pc_word c) = false /\
+    fst (run_prog cas_set cas_unset ref_channelcanstop (pc_word c)) = Some false /\
+    protocol_ok cas_set cas_unset ref_channelcanstop false w0 c = false.
+Proof. exact swapped_order_loses_request. Qed.
+Print Assumptions C13_swapped_publish_order_loses_request_refuted.
+
+(* ... and an ON request on Ready|Channel makes the poller answer "stop" *)
+Theorem C13_swapped_publish_order_stops_on_request_refuted :
+  exists w0 sched,
+    let c := prun cas_set cas_unset (pinit w0 (swapped_setchannel true) ref_channelcanstop) sched in
+    chan_active w0 = true /\ st_channel_updated w0 = false /\
+    pret (pc_b c) = Some true /\
+    protocol_ok cas_set cas_unset ref_channelcanstop true w0 c = false.
+Proof. exact swapped_order_stops_on_request. Qed.
+Print Assumptions C13_swapped_publish_order_stops_on_request_refuted.
+
 (* ---- regression: the load-then-store shape of the pinned tree LOSES updates -------------------- *)
 (* FULL STATEMENT THAT WAS FALSE before the repair (no_lost_update with old_call, the shapes
    atomics2v read from the pinned c2/state.go, in place of gen_call).  Refuted by the schedule
@@ -264,4 +356,14 @@ Example C13_nonvacuous :
   fst cf = apply_mcalls cs [1; 2; 3; 0]%nat (mk_word 4660 12) /\
   st_closed (mk_word 4660 12) = true /\ st_ready (mk_word 4660 14) = false /\
   st_set_channel true 256 = (true, 1792) /\ st_channel_can_stop 1792 = (false, 768).
+Proof. vm_compute. repeat split. Qed.
+
+(* SetChannel(false) against a poll on Ready|Channel|ChannelValue, the poll falling between the two
+   writes of SetChannel: it sees no notice and answers "no stop"; both return, the notice is pending,
+   and the next poll consumes it and answers "stop" *)
+Example C13_nonvacuous_protocol :
+  let c := prun gen_set gen_unset (pinit 770 (gen_setchannel false) gen_channelcanstop)
+                [0; 0; 0; 0; 0; 1; 1; 1; 1; 1; 0; 0]%nat in
+  chan_active 770 = true /\ pret (pc_a c) = Some true /\ pret (pc_b c) = Some false /\
+  pc_word c = 1282 /\ st_channel_can_stop 1282 = (true, 258) /\ st_channel_can_stop 258 = (false, 258).
 Proof. vm_compute. repeat split. Qed.
